@@ -259,7 +259,7 @@ theorem iteration_scope (n : Nat) (ctx : Scope) (stack : List Nat) (σ : State) 
     execIters (n + 1) ctx stack σ target body ((x, info) :: rest) =
       (bindTarget target x).bind fun bs =>
       (execBlock n ctx (σ.heap.length :: stack)
-        { σ with heap := σ.heap ++ [("loop", loopVal info) :: bs] } body).bind fun r =>
+        { σ with heap := σ.heap ++ [setAll [("loop", loopVal info)] bs] } body).bind fun r =>
         match r.2 with
         | .brk => .ok { r.1 with heap := r.1.heap.take σ.heap.length }
         | _ => execIters n ctx stack { r.1 with heap := r.1.heap.take σ.heap.length } target body rest := by
@@ -268,7 +268,7 @@ theorem iteration_scope (n : Nat) (ctx : Scope) (stack : List Nat) (σ : State) 
   | error e => rfl
   | ok bs =>
     simp only
-    cases execBlock n ctx (σ.heap.length :: stack) { σ with heap := σ.heap ++ [("loop", loopVal info) :: bs] } body with
+    cases execBlock n ctx (σ.heap.length :: stack) { σ with heap := σ.heap ++ [setAll [("loop", loopVal info)] bs] } body with
     | error e => rfl
     | ok r => obtain ⟨σ2, fl⟩ := r; cases fl <;> rfl
 
